@@ -24,8 +24,10 @@ MANIFEST = {
              "aliases and order are untouched, so every option string keeps addressing its own field's destination); a "
              "field that is not an owner of the conflicting option is not touched by a round; NONE raises exactly when a "
              "clash exists; AUTO prefixes stay dotted suffixes of the parent destination (invariant over rounds, without "
-             "user prefixes). Known finding kept visible: with equal user prefixes AUTO raises AssertionError instead of "
-             "ConflictResolutionError (witness theorem). Model tied to the code by comparing final option-string sets / "
+             "user prefixes); resolution is total: it returns or raises ConflictResolutionError, never another error "
+             "(c03_total, full since fix 00d3779 for equal user prefixes under AUTO). Known finding kept visible: a field "
+             "named h/help collides with the built-in help option and setup fails with argparse.ArgumentError (witness "
+             "c03_setup_total_witness, partial theorem c03_setup_total_partial for option sets that avoid -h/--help). Model tied to the code by comparing final option-string sets / "
              "error class on generated forests; the property's clauses (unique owner, exactly-one-leaf effect by a real "
              "parse per option, bare name, dotted suffix, NONE iff clash) are evaluated on the real parser."),
     "note": ("Trusted: Lean kernel + standard axioms; argparse lookup; harness incl. the computation of the flat field "
